@@ -45,10 +45,11 @@ import (
 // ---------------------------------------------------------------- the real decoder
 
 type decOut struct {
-	line string // "ok <canon>" | "err:<class>" | "panic"
-	msg  string // error text / panic value
-	n    int    // statements
-	wf   string // "" or the first C06 shape defect
+	line  string // "ok <canon>" | "err:<class>" | "panic"
+	msg   string // error text / panic value
+	n     int    // statements
+	wf    string // "" or the first C06 shape defect
+	latch string // "" or a C05 latch defect
 }
 
 func decErrClass(err error) string {
@@ -176,6 +177,19 @@ func decodeReal(doc []byte, base *string, failing bool) (res decOut) {
 		}
 	}
 	res.n = len(ts)
+	// C05: the end is sticky — Next keeps returning false, Err does not change, Close succeeds
+	e0 := d.Err()
+	for k := 0; k < 3; k++ {
+		if d.Next() {
+			res.latch = "Next returned true after it had returned false"
+		}
+		if d.Err() != e0 {
+			res.latch = "Err changed after the end of the iteration"
+		}
+	}
+	if err := d.Close(); err != nil {
+		res.latch = "Close failed: " + err.Error()
+	}
 	if e := d.Err(); e != nil {
 		res.line, res.msg = "err:"+decErrClass(e), e.Error()
 		if len(ts) > 0 {
@@ -657,6 +671,9 @@ func (h *decHarness) runBatch(cases []*decCase, d vh.Driver) {
 		if c.real.line == "panic" {
 			h.rep.Add(vh.Case{Kind: "violation", Op: c.replayLine(), Go: "panic: " + c.real.msg, Detail: "C05: rdfxml.Decoder panicked (" + c.origin + ") on " + short(c.doc)})
 		}
+		if c.real.latch != "" {
+			h.rep.Add(vh.Case{Kind: "violation", Op: c.replayLine(), Go: c.real.latch, Detail: "C05: terminal state of rdfxml.Decoder not sticky (" + c.origin + ") on " + short(c.doc)})
+		}
 		if c.real.wf != "" {
 			h.rep.Add(vh.Case{Kind: "violation", Op: c.replayLine(), Go: c.real.wf, Detail: "C06: ill-formed statement from rdfxml.Decoder (" + c.origin + ") on " + short(c.doc)})
 		}
@@ -839,7 +856,7 @@ func mainDec() {
 
 	plans := 3000 * *scale
 	if *tier == "thorough" {
-		plans = 100000 * *scale
+		plans = 80000 * *scale
 	}
 	const batch = 5000
 	feat := map[string]int{}
